@@ -300,7 +300,26 @@ def run_c16(rep, tier):
 
 
 def replay(pid, d):
-    print('replay of helper observations: re-run bin/check C16 (the call is in the replay file):', json.dumps(d.get('spec'))[:300])
+    common.use_repo()
+    spec = d.get('spec')
+    if not spec:
+        return 1
+    o = helper_obs(spec)
+    print('call    :', spec['helper'], spec['kw'])
+    print('outcome :', o['outcome'], ''.join(chr(c) for c in o.get('payload', []))[:200])
+    if o['outcome']['status'] != 'ok':
+        ok = spec.get('must_refuse') and 'ValueError' in o['outcome'].get('mro', [])
+        print('refused as required' if ok else f'VIOLATION property={pid} replay=(this file)')
+        return 0 if ok else 1
+    if spec.get('must_refuse'):
+        print(f'VIOLATION property={pid} replay=(this file)')
+        return 1
+    verdicts, _ = common.validate_observations(pid + '_replay', 'Trace_Helpers', [o], shards=1, tag='helpers')
+    fails = sorted(c for (p, c) in verdicts[o['tid']]['fails'])
+    print('verdict :', fails)
+    if not fails:
+        return 0
+    print(f'VIOLATION property={pid} replay=(this file)')
     return 1
 
 
